@@ -220,11 +220,20 @@ pub fn guarded<T>(f: impl FnOnce() -> T) -> Result<T, PanicInfo> {
     LAST_PANIC.with(|p| *p.borrow_mut() = None);
     match panic::catch_unwind(AssertUnwindSafe(f)) {
         Ok(v) => Ok(v),
-        Err(_) => Err(LAST_PANIC.with(|p| p.borrow_mut().take()).unwrap_or(PanicInfo {
-            file: "?".into(),
-            line: 0,
-            msg: "panic (no info captured)".into(),
-        })),
+        Err(_) => {
+            let pi = LAST_PANIC.with(|p| p.borrow_mut().take()).unwrap_or(PanicInfo {
+                file: "?".into(),
+                line: 0,
+                msg: "panic (no info captured)".into(),
+            });
+            // a panic raised by the harness's own code (a callback, an element type's `==`) while the code under test
+            // was on the stack is a harness defect, never a finding: stop with the harness-error status
+            if pi.file.starts_with("src/") && !pi.msg.starts_with("simulated fault") {
+                eprintln!("HARNESS-ERROR: the harness itself panicked inside a guarded call: {}", pi.detail());
+                std::process::exit(3);
+            }
+            Err(pi)
+        }
     }
 }
 
